@@ -29,12 +29,20 @@ class TrackedList:
   def __len__(self):
     return len(self._data)
 
+  poison = frozenset()   # global indices whose read fails (skippable error)
+
   def __getitem__(self, i):
     n = len(self._data)
     if isinstance(i, slice):
-      self.reads.extend(self._offset + j for j in range(*i.indices(n)))
+      idx = [self._offset + j for j in range(*i.indices(n))]
+      if any(j in self.poison for j in idx):
+        raise ValueError('unreadable record in the slice')
+      self.reads.extend(idx)
     else:
-      self.reads.append(self._offset + (i + n if i < 0 else i))
+      j = self._offset + (i + n if i < 0 else i)
+      if j in self.poison:
+        raise ValueError(f'unreadable record {j}')
+      self.reads.append(j)
     return self._data[i]
 
 
@@ -182,10 +190,21 @@ class CkptFamily(common.Family):
       cutpoints = sorted({rng.randrange(0, nops + 1)})
       if spec.get('early'):
         cutpoints = [spec['early']['cut']]
+      if rng.random() < 0.4:
+        # a third named stage
+        cutpoints = sorted(set(cutpoints) |
+                           {rng.randrange(cutpoints[0], nops + 1)})
     num_threads = 0 if level == 'source' else rng.choice([0, 0, 0, 1, 2, 3])
+    # unreadable records that the source is configured to skip
+    poison = []
+    if kind in ('seq', 'multi') and rng.random() < 0.2:
+      poison = sorted({rng.randrange(n) for _ in range(rng.choice([1, 1, 2]))})
     return {
         'spec': spec, 'level': level, 'kind': kind, 'shards': shards,
-        'files': files,
+        'files': files, 'poison': poison,
+        # a second crash before any new checkpoint: the same loaded state
+        # object is used for a second restore
+        'reuse': rng.choice([0, 0, 0, 1, 2]),
         'cuts': cuts, 'stages': cutpoints, 'num_threads': num_threads,
         'after': [rng.choice([0, 0, 1, 2, 3]) for _ in cuts],
         'sim': {'fine': num_threads > 0 and rng.random() < 0.2,
@@ -195,12 +214,13 @@ class CkptFamily(common.Family):
   # ------------------------------------------------------------------------
   def _source(self, cfg, tracked):
     from ml_metrics._src.chainables import io
+    skip = bool(cfg.get('poison'))
     if cfg['kind'] == 'seq':
-      ds = io.SequenceDataSource(tracked)
+      ds = io.SequenceDataSource(tracked, ignore_error=skip)
       for i, k in cfg['shards']:
         ds = ds.shard(i, k)
     elif cfg['kind'] == 'multi':
-      ds = io.SequenceDataSource.from_sequences(tracked.parts)
+      ds = io.SequenceDataSource.from_sequences(tracked.parts, ignore_error=skip)
       for i, k in cfg['shards']:
         ds = ds.shard(i, k)
     else:
@@ -227,11 +247,30 @@ class CkptFamily(common.Family):
 
     # uninterrupted reference run (sequential, same source configuration)
     ref_cfg = dict(cfg, num_threads=0)
-    mk = {'seq': lambda: TrackedList(data),
-          'multi': lambda: TrackedFiles(data, cfg['files']),
+    poison = frozenset(cfg.get('poison') or ())
+
+    def poisoned(t):
+      for part in getattr(t, 'parts', [t]):
+        part.poison = poison
+      return t
+
+    mk = {'seq': lambda: poisoned(TrackedList(data)),
+          'multi': lambda: poisoned(TrackedFiles(data, cfg['files'])),
           'iter': lambda: TrackedIterable(data)}[cfg['kind']]
+
+    def drain(it_):
+      """Rest of the stream and the value its StopIteration carries."""
+      out_ = []
+      while True:
+        try:
+          out_.append(key(next(it_)))
+        except StopIteration as e:
+          val = e.value
+          return out_, [type(val).__name__, pipes.norm_result(
+              getattr(val, 'agg_result', None))]
+
     it = self._make_iter(ref_cfg, mk())
-    ref = [key(b) for b in it]
+    ref, ref_stop = drain(it)
     ref_res = pipes.norm_result(it.agg_result) if has_agg else None
 
     segments = []
@@ -276,11 +315,27 @@ class CkptFamily(common.Family):
       tracked = mk()
       fresh = self._make_iter(cfg, tracked)
       it = fresh.from_state(state)
+      if cfg.get('reuse') and g == len(cfg['cuts']) - 1:
+        # the restored job crashes again before it took a checkpoint of its
+        # own: what it delivered is void, the same state is restored again
+        for _ in range(cfg['reuse']):
+          try:
+            next(it)
+          except StopIteration:
+            break
+        sim.count('fault:second_restore_from_same_state')
+        if hasattr(it, 'maybe_stop'):
+          try:
+            it.maybe_stop()
+          except Exception:  # pylint: disable=broad-exception-caught
+            pass
+        tracked = mk()
+        it = self._make_iter(cfg, tracked).from_state(state)
     else:
       exhausted = False
-    tail = []
+    tail, stop = [], None
     if not exhausted:
-      tail = [key(b) for b in it]
+      tail, stop = drain(it)
     segments.append(tail)
     res = pipes.norm_result(it.agg_result) if has_agg else None
     per_elem = None
@@ -301,6 +356,7 @@ class CkptFamily(common.Family):
           pass
         per_elem[i] = pipes.norm_result(it1.agg_result)
     return {'ref': ref, 'ref_res': ref_res, 'segments': segments, 'res': res,
+            'ref_stop': ref_stop, 'stop': stop,
             'reads_at_cut': reads_at_cut, 'n_data': len(data),
             'per_elem': per_elem}
 
@@ -360,6 +416,13 @@ class CkptFamily(common.Family):
                      f'a crash: {sorted(read_before_crash)}); cuts={cfg["cuts"]} '
                      f'num_threads={cfg["num_threads"]} kind={cfg["kind"]} '
                      f'shards={cfg["shards"]}'))
+    if obs.get('stop') is not None and not res and (
+        obs['stop'][0] != obs['ref_stop'][0] or not pipes.results_equal(
+            obs['ref_stop'][1], obs['stop'][1])) and pipes.results_equal(
+                obs['ref_res'], obs['res']):
+      res.append(v('aggregate', f"stop-value-differs:{cfg['level']}",
+                   f"the uninterrupted iterator ends with StopIteration("
+                   f"{obs['ref_stop']}), the resumed one with {obs['stop']}"))
     if obs['ref_res'] is not None and not res:
       if not pipes.results_equal(obs['ref_res'], obs['res']):
         lost = None
@@ -388,6 +451,11 @@ class CkptFamily(common.Family):
         if c.get('after'):
           del c['after'][i]
         yield c
+    if cfg.get('reuse'):
+      c = copy.deepcopy(cfg); c['reuse'] = 0; yield c
+    if cfg.get('poison'):
+      for i in range(len(cfg['poison'])):
+        c = copy.deepcopy(cfg); del c['poison'][i]; yield c
     for i, a in enumerate(cfg.get('after') or ()):
       if a:
         c = copy.deepcopy(cfg); c['after'][i] = a - 1; yield c
@@ -396,10 +464,12 @@ class CkptFamily(common.Family):
       del c['spec']['ops'][i]
       c['stages'] = sorted({min(x, len(c['spec']['ops'])) for x in c['stages']})
       if c['spec'].get('early'):
-        c['spec']['early']['cut'] = min(c['spec']['early']['cut'],
-                                        len(c['spec']['ops']))
-        c['stages'] = [c['spec']['early']['cut']]
+        e = c['spec']['early']['cut'] = min(c['spec']['early']['cut'],
+                                            len(c['spec']['ops']))
+        c['stages'] = sorted({e} | {x for x in c['stages'] if x > e})
       yield c
+    if len(cfg['stages']) > 1:
+      c = copy.deepcopy(cfg); c['stages'] = cfg['stages'][:1]; yield c
     if spec.get('early'):
       c = copy.deepcopy(cfg); del c['spec']['early']; yield c
     if len(spec['aggs']) > 1:
@@ -410,6 +480,7 @@ class CkptFamily(common.Family):
       c = copy.deepcopy(cfg)
       c['spec']['n'] -= 1
       c['cuts'] = [min(x, c['spec']['n']) for x in c['cuts']]
+      c['poison'] = [x for x in c.get('poison', []) if x < c['spec']['n']]
       if c.get('files'):
         j = max(i for i, k in enumerate(c['files']) if k > 0)
         c['files'][j] -= 1
